@@ -678,3 +678,239 @@ def rule_defer(ctx):
     r.positive_control('old_label' in allsaved and 'new_label' not in allsaved and sum(1 for n in lin if _is_child_codegen(n)) == 2 and not _funcstate_writes(pfn),
                        'try-finally generator that runs the finally clause on the return path without marking the function state')
     return r
+
+
+# ====================================================================================================================== C45-SKIPSTART
+START_DELIVERY = re.compile(r'^(PyMonitoring_FirePyStartEvent|c_profilefunc|c_tracefunc)$')
+
+
+def _helper_funcs(ctx):
+    out = {}
+    for name, d in sC45.profile_decls(ctx, 'func'):
+        if d.body and d.params:
+            out.setdefault(name, []).append(d)
+    return out
+
+
+def suppressing_params(d):
+    """indices of the parameters of a Profile.c helper function that switch its start event off when non-zero"""
+    body = strip_c_comments(d.body)
+    pn = [_pname(p) for p in d.params]
+    sites = []
+    for c, off in sC45.c_callees(body):
+        if not START_DELIVERY.match(c):
+            continue
+        end = match_paren(body, body.find('(', off))
+        if c != 'PyMonitoring_FirePyStartEvent' and 'PyTrace_CALL' not in body[off:end if end > 0 else off + 200]:
+            continue
+        sites.append(off)
+    out = []
+    for i, p in enumerate(pn):
+        if p and sites and all(sC45.reach(body, off, {p: 1}) is False for off in sites) and any(sC45.reach(body, off, {p: 0}) is not False for off in sites):
+            out.append(i)
+    return out
+
+
+def skip_slots(ctx, starts):
+    """{(macro name, config key): {macro parameter index}} - the parameters of the start macros that can suppress the start event"""
+    helpers = _helper_funcs(ctx)
+    out = {}
+    for name in sorted(starts):
+        for cfg, d in _macro_defs(ctx, name):
+            body = strip_c_comments(d.body or '')
+            params = [_pname(p) for p in d.params]
+            for callee, off in sC45.c_callees(body):
+                if callee not in helpers:
+                    continue
+                lp = body.find('(', off)
+                rp = match_paren(body, lp)
+                if rp < 0:
+                    continue
+                args = [a.strip() for a in split_args(body[lp + 1:rp])]
+                for hd in helpers[callee]:
+                    for i in suppressing_params(hd):
+                        if i < len(args) and args[i] in params:
+                            out.setdefault((name, cfg), set()).add(params.index(args[i]))
+            # a macro may also test the parameter itself
+            for i, p in enumerate(params):
+                sites = [off for c, off in sC45.c_callees(body) if sC45.DELIVER.match(c)]
+                if p and sites and re.search(r'\b%s\b' % re.escape(p), ' '.join(c for c, _ in _if_conditions(body))) and \
+                        all(sC45.reach(body, off, {p: 1}) is False for off in sites) and any(sC45.reach(body, off, {p: 0}) is not False for off in sites):
+                    if not gil_flag_params(params, body) or p not in gil_flag_params(params, body):
+                        out.setdefault((name, cfg), set()).add(i)
+    return out
+
+
+def _alternatives(e, env):
+    """[(value node, [(test node, truth)])] a placeholder expression can evaluate to"""
+    e = deref(e, env) if isinstance(e, ast.Name) else e
+    if isinstance(e, ast.IfExp):
+        return [(v, [(e.test, True)] + c) for v, c in _alternatives(e.body, env)] + [(v, [(e.test, False)] + c) for v, c in _alternatives(e.orelse, env)]
+    return [(e, [])]
+
+
+def _truthy_const(e):
+    return isinstance(e, ast.Constant) and bool(e.value)
+
+
+def rule_skipstart(ctx):
+    r = Rule('C45-SKIPSTART', 'the start event of a generated function is never suppressed by a run-time flag that does not also reach its return / unwind events; a function node '
+             'whose body is compiled under a directives override that switches profile / linetrace off is not traced by its function node either', floor=2)
+    ix = ctx.index
+    kinds, ems = _emitted_macros(ctx)
+    starts = kinds.get('start', set())
+    closes = kinds.get('ret', set()) | kinds.get('unwind', set())
+    if not starts:
+        raise AnalysisError('C45-SKIPSTART: no start macro emitted by CCodeWriter')
+    slots = skip_slots(ctx, starts)
+    if not slots:
+        r.info('no parameter of a start macro can suppress the start event')
+    method_of = {v: k for k, v in EVENT_METHODS.items()}
+    # ---- (A) what the compiler writes into the suppressing slots
+    for ccw, fn, n, macro, args, exprs, env, params in ems:
+        if macro not in starts:
+            continue
+        idx = set()
+        for (name, cfg), s in slots.items():
+            if name == macro:
+                idx |= s
+        for j in sorted(idx):
+            if j >= len(args):
+                continue
+            key = 'Code.CCodeWriter.%s:%s:skip-arg%d' % (fn.name, macro, j)
+            if exprs[j] is None:
+                lit = args[j].strip()
+                r.inst(key, sample='%s writes the literal %s into the suppressing parameter of %s' % (fn.name, lit, macro))
+                if lit not in ('0', '(0)'):
+                    r.violate(key, 'Cython/Compiler/Code.py', n.lineno,
+                              '%s writes `%s` into the parameter of %s that suppresses the start event: the function reports return / unwind events for an activation that was '
+                              'never opened' % (fn.name, lit, macro))
+                continue
+            alts = _alternatives(exprs[j], env)
+            runtime = [(v, conds) for v, conds in alts if not (isinstance(v, ast.Constant) and str(v.value) in ('0', 'False'))]
+            r.inst(key, sample='%s writes %s into the suppressing parameter of %s' % (fn.name, [node_src(v, 40) for v, _ in alts], macro))
+            if not runtime:
+                continue
+            # which call sites select the run-time alternative?
+            sel = set()
+            for v, conds in runtime:
+                for t, truth in conds:
+                    for x in ast.walk(t):
+                        if isinstance(x, ast.Name) and x.id in params:
+                            sel.add(x.id)
+            users = []
+            for m, qn, owner, gfn in trace_sites(ctx):
+                for c in walk_no_nested(gfn):
+                    if isinstance(c, ast.Call) and isinstance(c.func, ast.Attribute) and c.func.attr == fn.name:
+                        for k in c.keywords:
+                            if k.arg in sel and not (isinstance(k.value, ast.Constant) and not k.value.value):
+                                users.append((m, qn, c, k))
+            if not users and sel:
+                continue
+            # do the closing events of the same writer method family receive the same flag?
+            flag_texts = {node_src(v, 60) for v, _ in runtime}
+            closing_with_flag = set()
+            for ccw2, fn2, n2, macro2, args2, exprs2, env2, params2 in ems:
+                if macro2 in closes:
+                    for e2 in exprs2:
+                        if e2 is not None and any(node_src(v2, 60) in flag_texts for v2, _ in _alternatives(e2, env2)):
+                            closing_with_flag.add(macro2)
+            missing = sorted(closes - closing_with_flag)
+            if missing:
+                site = users[0] if users else None
+                r.violate('%s:start-skipped-by:%s' % (('%s.%s' % (site[0].short, site[1])) if site else 'Code.CCodeWriter.%s' % fn.name, '|'.join(sorted(flag_texts))),
+                          site[0].rel if site else 'Cython/Compiler/Code.py', site[2].lineno if site else n.lineno,
+                          '%s hands the run-time flag %s to the parameter of %s that suppresses the start event (selected by %s at %s), but the closing events %s of the same '
+                          'function are reported regardless of the flag: a call with the flag set reports a return without a call, on a frame that never received its call '
+                          'event (sys.settrace: the next line event calls the frame\'s trace function None -> TypeError), and whoever sets the flag has to report an unbalanced '
+                          'start itself - it does so on its error path too, so a raising call is closed twice' % (
+                              fn.name, ' / '.join(sorted(flag_texts)), macro, sorted(sel) or 'always',
+                              ', '.join('%s.%s' % (u[0].short, u[1]) for u in users) or '-', missing))
+    # ---- (B) function nodes built around a body with tracing switched off
+    n_over = 0
+    for ms in GEN_MODULES:
+        try:
+            m = ix.mod(ms)
+        except AnalysisError:
+            continue
+        for qn, owner, fn in ix.functions_of(m):
+            off_names = {}
+            for s in walk_no_nested(fn):
+                if isinstance(s, ast.Assign) and len(s.targets) == 1 and isinstance(s.targets[0], ast.Name) and isinstance(s.value, ast.Call) and \
+                        isinstance(s.value.func, ast.Attribute) and s.value.func.attr == 'for_directives':
+                    kw = {k.arg: k.value for k in s.value.keywords if k.arg in ('profile', 'linetrace')}
+                    if kw and all(isinstance(v, ast.Constant) and not v.value for v in kw.values()):
+                        off_names[s.targets[0].id] = sorted(kw)
+            if not off_names:
+                continue
+            for c in walk_no_nested(fn):
+                if not (isinstance(c, ast.Call) and isinstance(c.func, (ast.Name, ast.Attribute))):
+                    continue
+                body_kw = [k for k in c.keywords if k.arg == 'body' and any(isinstance(x, ast.Name) and x.id in off_names for x in ast.walk(k.value))]
+                if not body_kw:
+                    continue
+                cname = c.func.id if isinstance(c.func, ast.Name) else c.func.attr
+                K = None
+                for cand in ix.classes_by_name.get(cname, []):
+                    K = cand
+                if K is None:
+                    r.info('%s.%s: %s(body=<tracing switched off>) - class not resolved' % (m.short, qn, cname))
+                    continue
+                n_over += 1
+                markers = [k.arg for k in c.keywords if k.arg != 'body' and _truthy_const(k.value) and ix.find_class_attr(K, k.arg) is not None and
+                           isinstance(ix.find_class_attr(K, k.arg)[1], ast.Constant) and not ix.find_class_attr(K, k.arg)[1].value]
+                # the generator(s) that open the trace scope for nodes of class K
+                gens = [(gm, gq, go, gf) for gm, gq, go, gf in trace_sites(ctx)
+                        if go is not None and go in ix.mro(K) and any(isinstance(x, ast.Call) and isinstance(x.func, ast.Attribute) and x.func.attr == method_of['start']
+                                                                      for x in walk_no_nested(gf))]
+                key = '%s.%s:untraced-body:%s(%s)' % (m.short, qn, cname, ','.join(markers))
+                r.inst(key, sample='%s.%s builds %s(%s) around a body compiled with %s switched off; scope opened by %s' % (
+                    m.short, qn, cname, ', '.join(markers), '/'.join(off_names[next(iter(off_names))]), ['%s.%s' % (g[0].short, g[1]) for g in gens]))
+                for gm, gq, go, gf in gens:
+                    genv = local_assigns(gf)
+                    for x in walk_no_nested(gf):
+                        if not (isinstance(x, ast.Call) and isinstance(x.func, ast.Attribute) and x.func.attr == method_of['start']):
+                            continue
+                        if _dead_for_markers(gf, x, markers, genv):
+                            continue
+                        r.violate(key, gm.rel, x.lineno,
+                                  '%s.%s wraps the body of the %s it builds (%s) in a directives node that switches %s off, so the return statement in that body reports no '
+                                  'return event; %s.%s nevertheless opens a trace scope for such a node (the start event is not excluded for %s): the function reports a start '
+                                  'event without a return event on its success path and relies on its callee to close it, while its own error path closes it as well' % (
+                                      m.short, qn, cname, ', '.join('%s=1' % k for k in markers) or 'no marker', ' and '.join(off_names[next(iter(off_names))]),
+                                      gm.short, gq, ' / '.join('self.' + k for k in markers) or 'any marker'))
+    r.inst('overrides', sample='%d function nodes built around a body with tracing switched off' % n_over, nontrivial=bool(n_over))
+    # embedded examples
+    pch = type('D', (), {})()
+    pch.body = 'int ret; ret = PyMonitoring_EnterScope(a, b, c, d); if (unlikely(ret == -1)) return -1; return skip_event ? 0 : PyMonitoring_FirePyStartEvent(&s[0], code_obj, offset);'
+    pch.params = ['PyMonitoringState *state_array', 'PyObject *code_obj', 'int offset', 'int skip_event']
+    pg = ast.parse("def g(self, code):\n    if self.is_generator:\n        tracing = False\n    else:\n        tracing = code.is_tracing()\n    if tracing:\n"
+                   "        code.put_trace_start(n, self.pos)\n").body[0]
+    pcall = [x for x in ast.walk(pg) if isinstance(x, ast.Call) and isinstance(x.func, ast.Attribute) and x.func.attr == 'put_trace_start'][0]
+    r.positive_control(suppressing_params(pch) == [3] and not _dead_for_markers(pg, pcall, ['is_wrapper'], local_assigns(pg)) and
+                       _dead_for_markers(pg, pcall, ['is_generator'], local_assigns(pg)),
+                       'helper whose last parameter suppresses the start event; scope opened for a marked node')
+    return r
+
+
+def _dead_for_markers(fn, call, markers, env):
+    """is `call` unreachable whenever one of self.<marker> is true?  (guard dominance; one level of guard variables assigned in branches)"""
+    facts = sC45.dominating_facts(fn, call, env) or set()
+
+    def excludes(fs):
+        return any((('self.' + k), False) in fs for k in markers)
+    if excludes(facts):
+        return True
+    for t, v in facts:
+        if not v or not re.fullmatch(r'[A-Za-z_]\w*', t):
+            continue
+        assigns = [s for s in walk_no_nested(fn) if isinstance(s, ast.Assign) and any(isinstance(x, ast.Name) and x.id == t for x in s.targets)]
+        if not assigns:
+            continue
+        live = [s for s in assigns if not (isinstance(s.value, ast.Constant) and not s.value.value)]
+        if live and all(excludes(sC45.dominating_facts(fn, s, env) or set()) for s in live):
+            return True
+        # `x = A and not self.marker`
+        if live and all(any((('self.' + k), False) in sC45._literals(s.value, True, env) for k in markers) for s in live):
+            return True
+    return False
